@@ -348,6 +348,11 @@ Definition mon_C09_unit (x o : sx) : sx :=
   | Some tok =>
     (* an ETag served carries the suffix; stripping what was added gives the original back *)
     if nonempty e && negb (contains added tok) then verdict false "served ETag lacks the suffix"
+    (* what is stored (suffix stripped from what was served) is the origin's tag again, unless the
+       origin's own tag already ended in the suffix *)
+    else if nonempty e && negb (str_eqb (trim_right added [34%N]) (trim_right e [34%N]))   (* a suffix was really added *)
+            && negb (str_eqb (strip_etag_suffix sfx added) e) && negb (contains e [34%N] && negb (has_suffix e [34%N]))
+    then verdict false "stripping the suffix from a served ETag does not give the origin's ETag back"
     else v_ok
   end.
 
